@@ -475,6 +475,11 @@ func checkC17(p *Prog, r *Report) {
 		}
 	}
 
+	/* A snapshot of the filter table kept between calls is dropped whenever
+	the table changes: on every path of every function which adds to or
+	deletes from Converter.filters, before or after the change. */
+	checkFilterSnapshot(p, rDet, filtersF)
+
 	/* 4. Newline termination in fromReader. */
 	checkNewline(p, rNL, fr, fd)
 
@@ -1376,4 +1381,114 @@ func errorfVerbs(f string) []byte {
 		out = append(out, f[i])
 	}
 	return out
+}
+
+
+// checkFilterSnapshot: see the call.  Cache fields are the Converter's fields
+// which receive something made from maps.Clone / maps.Keys of the filter
+// table (directly or inside a struct made for it).
+func checkFilterSnapshot(p *Prog, ru *Rule, filtersF *types.Var) {
+	if nil == filtersF {
+		return
+	}
+	isFilters := func(v ssa.Value) bool {
+		fv, _ := loadedField(stripConv(v, false))
+		return fv == filtersF
+	}
+	caches := map[*types.Var]bool{}
+	for _, fn := range p.Funcs() {
+		if nil == fn.Pkg || !strings.HasSuffix(fn.Pkg.Pkg.Path(), "/"+sffPkg) {
+			continue
+		}
+		eachInstr(fn, func(i ssa.Instruction) {
+			st, ok := i.(*ssa.Store)
+			if !ok || isNilConst(st.Val) {
+				return
+			}
+			fv, base := fieldAddrOf(st.Addr)
+			if nil == fv || fv == filtersF || nil == base || !typeIs(base.Type(), ModPath+"/"+sffPkg, "Converter") {
+				return
+			}
+			rs := valueRoots(st.Val, nil)
+			/* A struct made for the purpose: what its fields were given. */
+			for _, x := range rs {
+				if al, isAl := x.V.(*ssa.Alloc); isAl && "alloc" == x.Kind {
+					for _, ref := range *al.Referrers() {
+						if fa, isFA := ref.(*ssa.FieldAddr); isFA {
+							for _, r2 := range *fa.Referrers() {
+								if s2, isSt := r2.(*ssa.Store); isSt && s2.Addr == ssa.Value(fa) {
+									rs = append(rs, valueRoots(s2.Val, nil)...)
+								}
+							}
+						}
+					}
+				}
+			}
+			for _, x := range rs {
+				if "call" != x.Kind {
+					continue
+				}
+				n := strings.SplitN(x.Callee, "[", 2)[0]
+				if !strings.HasSuffix(n, "maps.Clone") && !strings.HasSuffix(n, "maps.Keys") {
+					continue
+				}
+				if c, isCall := x.V.(*ssa.Call); isCall && 0 != len(c.Common().Args) && isFilters(c.Common().Args[0]) {
+					caches[fv] = true
+				}
+			}
+		})
+	}
+	if 0 == len(caches) {
+		return
+	}
+	for _, fn := range p.Funcs() {
+		if nil == fn.Pkg || !strings.HasSuffix(fn.Pkg.Pkg.Path(), "/"+sffPkg) {
+			continue
+		}
+		var muts []ssa.Instruction
+		eachInstr(fn, func(i ssa.Instruction) {
+			switch x := i.(type) {
+			case *ssa.MapUpdate:
+				if isFilters(x.Map) {
+					muts = append(muts, i)
+				}
+			case *ssa.Call:
+				if b, isB := x.Common().Value.(*ssa.Builtin); isB && ("delete" == b.Name() || "clear" == b.Name()) && 0 != len(x.Common().Args) && isFilters(x.Common().Args[0]) {
+					muts = append(muts, i)
+				}
+			case *ssa.Store:
+				if fv, _ := fieldAddrOf(x.Addr); fv == filtersF && "New" != fn.Name()[:min(3, len(fn.Name()))] {
+					muts = append(muts, i)
+				}
+			}
+		})
+		for cf := range caches {
+			isDrop := func(j ssa.Instruction) bool {
+				st, ok := j.(*ssa.Store)
+				if !ok || !isNilConst(st.Val) {
+					return false
+				}
+				fv, _ := fieldAddrOf(st.Addr)
+				return fv == cf
+			}
+			for k, m := range muts {
+				c := fmt.Sprintf("%s:snapshot-dropped#%d", fnName(fn), k+1)
+				before := false
+				eachInstr(fn, func(j ssa.Instruction) {
+					if isDrop(j) && instrDominates(j, m) {
+						before = true
+					}
+				})
+				if before {
+					ru.OK(c, posOf(m), "Converter.%s is cleared before the table changes", cf.Name())
+					continue
+				}
+				if miss := (reachQ{From: locOf(m), Block: isDrop, Target: isReturn}).run(); nil != miss {
+					ru.Bad(c, posOf(m), "the filter table is changed here and the function can return without clearing the snapshot kept in Converter.%s: later conversions go on using the old table (a deleted pattern still converts, a new one is ignored)", cf.Name())
+				} else {
+					ru.OK(c, posOf(m), "Converter.%s is cleared on every way out", cf.Name())
+				}
+			}
+		}
+	}
 }
